@@ -143,6 +143,9 @@ MkTWCC(count, chunks, deltas, p) ==
   IN  [v0 EXCEPT !.hdr = [p |-> p /\ PadTWCC(v0) > 0, c |-> 15, t |-> 205, len |-> SizeTWCC(v0) \div 4 - 1]]
 TWCCShapes ==
   { MkTWCC(0, << >>, << >>, FALSE),
+    \* the run lengths add up to 65535, 65536 and 65537 (a sum that is 0 modulo 2^16) under a status count of 65535
+    MkTWCC(65535, << Rl(0, 8191), Rl(0, 8191), Rl(0, 8191), Rl(0, 8191), Rl(0, 8191), Rl(0, 8191), Rl(0, 8191), Rl(0, 8191), Rl(0, 8) >>, << >>, FALSE),
+    MkTWCC(65535, << Rl(0, 8191), Rl(0, 8191), Rl(0, 8191), Rl(0, 8191), Rl(0, 8191), Rl(0, 8191), Rl(0, 8191), Rl(0, 8191), Rl(0, 9) >>, << >>, FALSE),
     \* an even number of chunks and no deltas: the last chunk ends exactly where the packet ends
     MkTWCC(2, << Rl(0, 1), Rl(0, 1) >>, << >>, FALSE),
     MkTWCC(20, << Rl(0, 3), Sv1(<< 0, 0, 0 >>), Rl(0, 2), Sv2(<< 0 >>) >>, << >>, FALSE),
@@ -224,6 +227,10 @@ RAWDom ==
   { RawOf(pt, c, Ramp(4 * n, 50)) : pt \in {0, 1, 199, 208, 255}, c \in {0, 31}, n \in {0, 1, 2} }
   \cup { RawOf(205, c, Ramp(8, 50)) : c \in (0..31) \ {1, 5, 11, 15} }
   \cup { RawOf(206, c, Ramp(8, 50)) : c \in (0..31) \ {1, 2, 4, 15} }
+  \* unknown packets whose own first octet has the P bit and whose content ends like a padding (or does not)
+  \cup { [k |-> "RAW", bytes |-> << 160 + c, pt >> \o BE16(Len(body) \div 4) \o body] :
+           pt \in {199, 210}, c \in {0, 5}, body \in { << 1, 2, 3, 4, 0, 0, 0, 4 >>, << 1, 2, 3, 4, 0, 0, 0, 0, 0, 0, 0, 8 >>, << 0, 0, 0, 4 >>,
+                                                     << 1, 2, 3, 1 >>, << 1, 2, 3, 4, 9, 9, 9, 4 >>, << 1, 2, 3, 4, 0, 0, 0, 0 >> } }
 
 StarDom(k) ==
   CASE k = "SR" -> SRDom [] k = "RR" -> RRDom [] k = "SDES" -> SDESDom [] k = "BYE" -> BYEDom [] k = "APP" -> APPDom
@@ -306,6 +313,11 @@ LimitDom ==
   \cup { [BaseREMB EXCEPT !.br = x] : x \in FloatLimits }
   \cup { [BaseCCFB EXCEPT !.blocks = << CcBlock(D4(5), 7, [i \in 1..n |-> Mb(TRUE, 0, i % 8192)]) >>] : n \in {16383, 16384, 16385} }
   \cup { TwccWithDelta(3, pos, 1, t) : pos \in 1..3, t \in {-1, 0, 255, 256, 300} }
+  \* the same in the middle of a longer list (a bulk path for long lists must keep the range check)
+  \cup { TwccWithDelta(n, 10, 1, t) : n \in {16, 17, 40}, t \in {-1, 255, 256} }
+  \cup { TwccWithDelta(n, 10, 2, t) : n \in {16, 40}, t \in {-32769, 32767, 32768} }
+  \cup { [BaseSR EXCEPT !.reports = [i \in 1..31 |-> IF i = 17 THEN [RBn(i) EXCEPT !.lost = x] ELSE RBn(i)]] : x \in { << 0, 255, 255, 255 >>, << 1, 0, 0, 0 >> } }
+  \cup { [k |-> "SDES", chunks |-> [i \in 1..20 |-> Chunk1(i, << Item(1, IF i = 11 THEN n ELSE 2) >>)]] : n \in {255, 256} }
   \cup { TwccWithDelta(3, pos, 2, t) : pos \in 1..3, t \in {-32769, -32768, 32767, 32768, 70000} }
   \cup { [MkTWCC(1, << Rl(1, 1) >>, << Dl(1, 7) >>, FALSE) EXCEPT !.hdr.c = c] : c \in {32, 63} }
   \* tick counts beyond 32 bits whose low 32 bits are inside the range (a narrowing conversion would accept them)
@@ -453,6 +465,11 @@ RelDom ==
     [BaseNACK EXCEPT !.nacks = << Pair(100, 65535), Pair(117, 65535) >>], [BaseNACK EXCEPT !.nacks = << Pair(100, 1), Pair(101, 1) >>],
     [BaseNACK EXCEPT !.nacks = << Pair(100, 0), Pair(101, 0), Pair(102, 0) >>], [BaseNACK EXCEPT !.nacks = << Pair(300, 0), Pair(200, 0), Pair(100, 0) >>],
     [BaseNACK EXCEPT !.nacks = << Pair(65535, 3), Pair(16, 0) >>],
+    \* a pair whose packet ID the bitmap of its predecessor already names (bit d-1 set), with an empty and a non-empty bitmap
+    [BaseNACK EXCEPT !.nacks = << Pair(4000, 580), Pair(4007, 0), Pair(5000, 32769) >>],
+    [BaseNACK EXCEPT !.nacks = << Pair(4000, 64), Pair(4007, 5) >>], [BaseNACK EXCEPT !.nacks = << Pair(4000, 1), Pair(4001, 0) >>],
+    [BaseNACK EXCEPT !.nacks = << Pair(4000, 32768), Pair(4016, 0) >>], [BaseNACK EXCEPT !.nacks = << Pair(65530, 65535), Pair(2, 0) >>],
+    [BaseNACK EXCEPT !.nacks = << Pair(4000, 0), Pair(4007, 0) >>],
     [BaseFIR EXCEPT !.fir = << Fir(D4(9), 7), Fir(D4(9), 8) >>], [BaseFIR EXCEPT !.fir = << Fir(D4(9), 255), Fir(D4(9), 0) >>],
     [BaseFIR EXCEPT !.fir = << Fir(D4(5), 7), Fir(D4(1), 7) >>],
     [BaseREMB EXCEPT !.ssrcs = << D4(9), << 9, 10, 11, 13 >>, << 9, 10, 11, 14 >> >>], [BaseREMB EXCEPT !.ssrcs = << D4(9), D4(5), D4(1) >>],
@@ -473,7 +490,28 @@ RelDom ==
     MkXR(<< [XrB("lrle") EXCEPT !.ssrc = D4(1)] >>), MkXR(<< [XrB("voip") EXCEPT !.ssrc = D4(1)], [XrB("ss") EXCEPT !.ssrc = D4(1)] >>),
     MkXR(<< [XrB("dlrr") EXCEPT !.reports = << [ssrc |-> D4(1), lrr |-> D4(5), dlrr |-> D4(9)], [ssrc |-> D4(1), lrr |-> D4(6), dlrr |-> D4(9)] >>] >>),
     MkXR(<< [XrB("prt") EXCEPT !.times = << D4(33), << 33, 34, 35, 37 >>, << 33, 34, 35, 38 >> >>] >>),
-    MkXR(<< [XrB("lrle") EXCEPT !.chunks = << 16385, 16386, 16387, 16388 >>] >>) }
+    MkXR(<< [XrB("lrle") EXCEPT !.chunks = << 16385, 16386, 16387, 16388 >>] >>),
+    \* run-length blocks whose chunks describe exactly the interval [begin_seq, end_seq): bit vectors of 15, runs, a terminating null
+    MkXR(<< [XrB("lrle") EXCEPT !.bs = 1000, !.es = 1045, !.chunks = << 54613, 43690, 65535, 0 >>], XrB("unk") >>),
+    MkXR(<< [XrB("drle") EXCEPT !.bs = 1000, !.es = 1045, !.chunks = << 54613, 43690, 65535, 0 >>] >>),
+    MkXR(<< [XrB("lrle") EXCEPT !.bs = 65530, !.es = 14, !.chunks = << 16389, 54613 >>] >>),
+    MkXR(<< [XrB("lrle") EXCEPT !.bs = 10, !.es = 30, !.chunks = << 16389, 54613 >>] >>),
+    MkXR(<< [XrB("lrle") EXCEPT !.bs = 10, !.es = 25, !.chunks = << 54613, 0 >>] >>),
+    MkXR(<< [XrB("prt") EXCEPT !.bs = 10, !.es = 12, !.times = << D4(33), D4(37) >>] >>) }
+
+\* ---- RFC 3611 gives some mid-range values a meaning (127 = unavailable); two such fields at once, on a block
+\* whose other fields hold ordinary values ---------------------------------------------------------------
+TypicalVoip == [XrB("voip") EXCEPT !.lr = 3, !.dr = 2, !.bd = 20, !.gd = 90, !.rf = 80, !.erf = 78, !.moslq = 42, !.moscq = 38,
+                                    !.sl = 200, !.nl = 180, !.rerl = 30, !.gmin = 16, !.rxc = 1]
+PairXR == { MkXR(<< b >>) : b \in PairVary(TypicalVoip, << << "lr", {0, 127, 255} >>, << "dr", {0, 127, 255} >>, << "rf", {0, 127, 255} >>,
+                                                            << "erf", {0, 127, 255} >>, << "moslq", {0, 127, 255} >>, << "moscq", {0, 127, 255} >>,
+                                                            << "sl", {0, 127, 255} >>, << "nl", {0, 127, 255} >>, << "rerl", {0, 127, 255} >>,
+                                                            << "gmin", {0, 127, 255} >>, << "rxc", {0, 127, 255} >> >>) }
+\* ---- opaque XR blocks of the block types other documents have registered, at every small length, with low-entropy
+\* content (alternating null and non-null 16-bit words): a decoder or accessor that starts to interpret one shows here
+SparseBytes(n, ph) == [i \in 1..n |-> IF (((i - 1) \div 2) + ph) % 2 = 0 THEN 0 ELSE 1]
+UnkDom == { MkXR(<< XrB("dlrr"), [bt |-> "unk", type |-> t, ts |-> 0, bytes |-> SparseBytes(4 * w, ph)] >>) : t \in 8..40, w \in 1..12, ph \in {0, 1} }
+
 
 \* ---- values with unaligned variable-length parts (C05: if Marshal succeeds the output is framed and its size is MarshalSize) ----
 OddRle(n) == [XrB("lrle") EXCEPT !.chunks = [i \in 1..n |-> (300 + i) % 65536]]
@@ -494,5 +532,5 @@ OversizeDom ==
   \cup { MkXR(<< [XrB("ss") EXCEPT !.toh = t] >>) : t \in {4, 7, 255} }
 LooseDom == UnalignedDom \cup OversizeDom
 
-PairAll == DupDom \cup TextDom \cup SpecialDom \cup RelDom \cup PairSR \cup PairRR \cup PairSDES \cup PairBYE \cup PairAPP \cup PairNACK \cup PairSLI \cup PairFIR \cup PairREMB \cup PairCCFB
+PairAll == DupDom \cup TextDom \cup SpecialDom \cup RelDom \cup PairXR \cup PairSR \cup PairRR \cup PairSDES \cup PairBYE \cup PairAPP \cup PairNACK \cup PairSLI \cup PairFIR \cup PairREMB \cup PairCCFB
 =============================================================================
